@@ -36,7 +36,7 @@ Fixpoint pick (n : nat) (l : list nat) {struct l} : option (nat * list nat) :=
 Definition pickd (n : nat) (l : list nat) : option (nat * list nat) :=
   match pick n l with Some p => Some p | None => pick 0 l end.
 
-Fixpoint upd {A} (n : nat) (x : A) (l : list A) : list A :=
+Fixpoint upd {A} (n : nat) (x : A) (l : list A) {struct l} : list A :=
   match l, n with
   | [], _ => []
   | _ :: r, 0 => x :: r
